@@ -10,14 +10,15 @@
        non-periodic grid), reps_init, normalize_cell_to_grid_nth (position wrapper), cluster_stats.
    (B) c01_multi_components, c01_multi_labels, c01_multi_num_labels, c01_multi, c01_multi_euclid
        (several mutually separated spheres on a non-periodic grid), c01_multi_no_removal.
-   (C) c01_periodic_single_partial (one sphere on a grid with periodic axes, 2 r <= L along them, centre
-       anywhere): one cluster, one candidate, exact volume.  The position statement on periodic
-       grids is NOT proved here (see the comment at that theorem). *)
+   (C) one sphere on a grid with any mixture of periodic axes, centre anywhere along periodic axes:
+       c01_periodic_single_partial (2 r <= L along periodic axes): one cluster, one candidate, exact volume;
+       c01_periodic_single (2 r + 2 h <= L along periodic axes): in addition the centre of the candidate is
+       within half a grid spacing of c under the periodic metric and inside the box along periodic axes. *)
 From Coq Require Import QArith Qabs Qround ZArith List Arith Bool Lia Lqa Setoid Morphisms Permutation.
 Import ListNotations.
 From PD Require Import Model.Grid Model.Render Model.MergeLoop Model.Locate Model.Ball Model.Overlap
   Proofs.Render Proofs.MergeLoop Proofs.Components Proofs.LocateCart Proofs.Overlap
-  Proofs.BallRow Proofs.BallCentroid Proofs.BallSep Proofs.BallConn Proofs.BallEuclid Proofs.BallTorus.
+  Proofs.BallRow Proofs.BallCentroid Proofs.BallSep Proofs.BallConn Proofs.BallEuclid Proofs.BallTorus Proofs.BallLift.
 Local Open Scope Q_scope.
 
 Local Notation in_rangeL := LocateCart.in_range.
@@ -683,12 +684,9 @@ Section Periodic.
   Qed.
 End Periodic.
 
-(* PARTIAL: one candidate with the exact volume.  Missing for the full C01 statement on periodic grids:
-   the centre of the candidate lies within half a grid spacing of c under the periodic metric and
-   inside the box.  That needs locate_cart_position with the lift kappa = "period copy of the label
-   nearest to c", lift_ok for it (which uses 2 r + 2 h <= L rather than 2 r <= L), the bijection between
-   the torus ball and the lifted lattice ball, ball_centroid on a three-period window, and the
-   arithmetic of normalize; not done here. *)
+(* PARTIAL with respect to the C01 text: one candidate with the exact volume under the weak condition
+   2 r <= L; nothing is said about its position (the position statement needs 2 r + 2 h <= L and is
+   c01_periodic_single below). *)
 Theorem c01_periodic_single_partial g c r lab :
   let img := mk_limage (gshape g) lab in
   grid_ok g -> tfits g c r -> ball_cells g c r <> [] ->
@@ -709,6 +707,278 @@ Proof.
   - unfold candidates. fold img.
     rewrite (per_reps g c r img Hok Hfit Hwf Hspec Hmask p0 Hp0). reflexivity.
   - exact (per_volume g c r img Hok Hfit Hwf Hspec Hmask p0 Hp0).
+Qed.
+
+(* ---- position on periodic grids ---- *)
+Lemma off_no_edge N a : forall es st,
+  (forall kl kh ax, In (kl, kh, ax) es -> ax <> a) -> (forall k, off st k a = 0%Z) ->
+  forall k, off (merge_all N st es) k a = 0%Z.
+Proof.
+  unfold merge_all. induction es as [|e es IH]; intros st He H0 k; cbn [fold_left]; [apply H0|].
+  apply IH; [intros kl kh ax Hin; apply (He kl kh ax); right; exact Hin|].
+  intros k'. destruct e as [[kl kh] ax]. unfold merge_step.
+  destruct (Nat.eqb (cl st kl) (cl st kh)); [apply H0|]. cbn [off].
+  assert (Hd : delta a ax = 0%Z).
+  { unfold delta. destruct (Nat.eqb_spec a ax) as [E|E]; [|reflexivity].
+    exfalso. apply (He kl kh ax); [left; reflexivity|congruence]. }
+  destruct (Nat.eqb (cl st k') (cl st kh)); rewrite ?H0, ?Hd; lia.
+Qed.
+
+Lemma normalize_cell_to_grid_nth_gen : forall g (f : nat -> Q) s k a,
+  nth_error g k = Some a ->
+  nth_error (normalize g (cell_to_grid g (map f (seq s (length g))))) k
+  = Some (norm1 a (alo a + f (s + k)%nat * adisc a)).
+Proof.
+  induction g as [|b g IH]; intros f s k a Hk.
+  - destruct k; discriminate Hk.
+  - cbn [length seq map cell_to_grid normalize]. destruct k as [|k]; cbn [nth_error] in *.
+    + injection Hk as ->. rewrite Nat.add_0_r. reflexivity.
+    + rewrite (IH f (S s) k a Hk). rewrite Nat.add_succ_r. reflexivity.
+Qed.
+
+Lemma mean_bound m K S n : 0 < n -> m * n == S + K * n -> Qabs S <= (1 # 2) * n ->
+  - (1 # 2) <= m - K /\ m - K <= 1 # 2.
+Proof.
+  intros Hn E HS. apply Qabs_Qle_condition in HS. destruct HS as [H1 H2].
+  assert (E' : (m - K) * n == S) by (rewrite <- (Qplus_inj_r _ _ (K * n)); rewrite <- E; ring).
+  set (d := m - K) in *. split.
+  - destruct (Qlt_le_dec d (- (1 # 2))) as [H|H]; [exfalso|exact H]. nra.
+  - destruct (Qlt_le_dec (1 # 2) d) as [H|H]; [exfalso|exact H]. nra.
+Qed.
+
+Section PeriodicPos.
+  Variable g : grid.
+  Variable c : list Q.
+  Variable r : Q.
+  Variable img : limage.
+  Hypothesis Hok : grid_ok g.
+  Hypothesis Hpf : pfits g c r.
+  Hypothesis Hne : ball_cells g c r <> [].
+  Hypothesis Hwf : wf_img g img.
+  Hypothesis Hspec : LabelSpecImg img.
+  Hypothesis Hmask : mask_is_ball g c r img.
+
+  Local Notation st := (final_state g img).
+  Local Notation cells := (mask_cells img).
+
+  Let Htf : tfits g c r := pfits_tfits g c r Hok Hpf.
+
+  Lemma pp_mask p : In p cells <-> In p (ball_cells g c r).
+  Proof. exact (per_mask_cells g c r img Hwf Hmask p). Qed.
+
+  Lemma pp_one p q : In p cells -> In q cells -> cl st (clab img p) = cl st (clab img q).
+  Proof. exact (per_one_cluster g c r img Hok Htf Hwf Hspec Hmask p q). Qed.
+
+  Lemma pp_perm : Permutation cells (ball_cells g c r).
+  Proof.
+    apply NoDup_Permutation; [exact (nodup_mask_cells g img Hwf)|apply ball_cells_nodup|exact pp_mask].
+  Qed.
+
+  (* number of periods by which the cell is lifted, and the same per label *)
+  Definition kcell (p : cell) (ax : nat) : Z :=
+    match nth_error g ax, nth_error c ax with
+    | Some a, Some x => ksh a x (nth ax p 0%Z)
+    | _, _ => 0%Z
+    end.
+  Definition kappa (k ax : nat) : Z :=
+    match members img k with p :: _ => kcell p ax | [] => 0%Z end.
+
+  Lemma kcell_adj p q ax : In p cells -> In q cells -> face_adj p q -> kcell p ax = kcell q ax.
+  Proof.
+    intros Hp Hq Hf. unfold kcell. destruct (nth_error g ax) as [a|] eqn:Ha; [|reflexivity].
+    destruct (nth_error c ax) as [x|] eqn:Hx; [|reflexivity].
+    destruct (pfits_nth g c r Hpf ax a Ha) as (x' & Hx' & Hf1). assert (x' = x) by congruence. subst x'.
+    apply (ksh_face_adj g c r p q ax a x Hok Ha Hx Hf1); [apply pp_mask; exact Hp|apply pp_mask; exact Hq|exact Hf].
+  Qed.
+
+  Lemma kcell_conn p q : box_conn img p q -> forall ax, kcell p ax = kcell q ax.
+  Proof.
+    unfold box_conn, conn0. intros H ax.
+    induction H as [x|x y _ IH|x y z _ IH1 _ IH2|x y (Hx & Hy & Hf)]; try congruence.
+    exact (kcell_adj x y ax Hx Hy Hf).
+  Qed.
+
+  Lemma kappa_cell p ax : In p cells -> kappa (clab img p) ax = kcell p ax.
+  Proof.
+    intros Hp. unfold kappa.
+    assert (Hpm : In p (members img (clab img p))).
+    { apply (members_mask g img (clab img p) p Hwf). split; [exact Hp|].
+      apply mask_cells_spec in Hp. unfold clab. lia. }
+    destruct (members img (clab img p)) as [|p0 ps] eqn:E; [destruct Hpm|].
+    assert (Hp0 : In p0 (members img (clab img p))) by (rewrite E; left; reflexivity).
+    apply (members_mask g img (clab img p) p0 Hwf) in Hp0. destruct Hp0 as [Hm0 Hl0].
+    apply kcell_conn. apply (Hspec p0 p Hm0 Hp). apply mask_cells_spec in Hp. unfold clab in Hl0. lia.
+  Qed.
+
+  Lemma ball_r_nonneg : 0 <= r.
+  Proof.
+    destruct (ball_cells g c r) as [|p ps] eqn:E; [congruence|].
+    assert (Hp : In p (ball_cells g c r)) by (rewrite E; left; reflexivity).
+    apply ball_cells_spec in Hp. destruct Hp as [_ Hi]. apply inside_iff in Hi. tauto.
+  Qed.
+
+  Lemma kappa_lift_ok : lift_ok kappa (edges g img).
+  Proof.
+    intros kl kh ax Hin a'.
+    destruct (edges_sound g img kl kh ax Hok Hwf Hin) as (l & h & Hl & Hh & Hw & <- & <-).
+    rewrite (kappa_cell h a' Hh), (kappa_cell l a' Hl).
+    apply (wrap_pair_nth g ax l h Hok) in Hw. destruct Hw as (Hp & _ & _ & H0 & HN & Ho).
+    unfold delta. destruct (Nat.eqb_spec a' ax) as [->|Hneq].
+    - destruct Hp as (a0 & Hn & Hper).
+      destruct (pfits_nth g c r Hpf ax a0 Hn) as (x & Hx & Hf1).
+      unfold kcell. rewrite Hn, Hx, H0, HN, (shapeN_nth_error g ax a0 Hn).
+      apply pp_mask in Hh. destruct (ball_axis_lift g c r h ax a0 x Hok Hn Hx Hh) as [Hr Hd].
+      rewrite HN, (shapeN_nth_error g ax a0 Hn) in Hd.
+      exact (ksh_wrap a0 x r (grid_ok_axis g ax a0 Hok Hn) Hper Hr Hf1 Hd).
+    - unfold kcell. rewrite (Ho a' Hneq). lia.
+  Qed.
+
+  (* stored position * number of cells = sum of the cell positions shifted by the stored offsets *)
+  Lemma pp_position_off p ax : In p cells ->
+    mpos st (cl st (clab img p)) ax * inject_Z (Z.of_nat (length cells))
+    == lsum cells (fun q => coordQ q ax + (1 # 2) + inject_Z (off st (clab img q) ax * shapeN g ax)).
+  Proof.
+    intros Hp. set (v := cl st (clab img p)).
+    pose proof (merge_position (shapeN g) (num_labels img) (pos0 img) (vol0 g img)
+                  (inst_vol0_pos g img Hok Hwf) (edges g img) (edges_edges_ok g img)
+                  (clab img p) ax (clab_lt img p Hp)) as H.
+    cbv zeta in H. change (merge_all (shapeN g) (init_state (pos0 img) (vol0 g img)) (edges g img)) with st in H.
+    fold v in H.
+    pose proof (msum_regroup cell cells (clab img) (num_labels img) (clab_lt img) (edges g img) (shapeN g)
+                  (pos0 img) (vol0 g img) v (cell_volume g) (fun _ => 1) (vol0 g img)
+                  (inst_vol0_spec g img Hwf)) as R1.
+    pose proof (msum_regroup cell cells (clab img) (num_labels img) (clab_lt img) (edges g img) (shapeN g)
+                  (pos0 img) (vol0 g img) v (cell_volume g)
+                  (fun q => coordQ q ax + (1 # 2) + inject_Z (off st (clab img q) ax * shapeN g ax))
+                  (contrib (shapeN g) (pos0 img) (vol0 g img) st ax)
+                  (contrib_spec cell cells (clab img) (num_labels img) (edges g img) (shapeN g)
+                     (pos0 img) (vol0 g img) (cell_volume g) (inst_vol0_spec g img Hwf)
+                     coordQ (inst_pos0_spec g img Hwf) ax)) as R2.
+    change (merge_all (shapeN g) (init_state (pos0 img) (vol0 g img)) (edges g img)) with st in R1, R2.
+    rewrite R1, R2 in H.
+    assert (Hall : forall q, In q cells -> Nat.eqb (cl st (clab img q)) v = true).
+    { intros q Hq. apply Nat.eqb_eq. exact (pp_one q p Hq Hp). }
+    rewrite !(lsum_ind_true cells (fun q => Nat.eqb (cl st (clab img q)) v)) in H by exact Hall.
+    rewrite lsum_one in H.
+    pose proof (cell_volume_pos g Hok) as Hcv.
+    assert (H' : cell_volume g * (mpos st v ax * inject_Z (Z.of_nat (length cells)))
+                 == cell_volume g * lsum cells (fun q => coordQ q ax + (1 # 2)
+                                      + inject_Z (off st (clab img q) ax * shapeN g ax))).
+    { rewrite <- H. ring. }
+    apply Qmult_inj_l in H'; [exact H'|]. intros E. rewrite E in Hcv. discriminate Hcv.
+  Qed.
+
+  (* ... in lifted coordinates: T whole periods, none along non-periodic axes *)
+  Lemma pp_position_lifted p ax a x : In p cells -> nth_error g ax = Some a -> nth_error c ax = Some x ->
+    exists T : Z, (aper a = false -> T = 0%Z) /\
+      mpos st (cl st (clab img p)) ax * inject_Z (Z.of_nat (length (ball_cells g c r)))
+      == lsum (ball_cells g c r) (fun q => rowoff (gam a x) (liftZ a x (nth ax q 0%Z)))
+         + (gam a x + inject_Z (T * ncell a)) * inject_Z (Z.of_nat (length (ball_cells g c r))).
+  Proof.
+    intros Hp Ha Hx. set (v := cl st (clab img p)).
+    pose proof (pp_position_off p ax Hp) as H. fold v in H.
+    rewrite (lsum_perm _ _ _ pp_perm), (Permutation_length pp_perm) in H.
+    assert (Hgen : forall T : Z,
+              (forall q, In q cells -> off st (clab img q) ax = (kcell q ax + T)%Z) ->
+              mpos st v ax * inject_Z (Z.of_nat (length (ball_cells g c r)))
+              == lsum (ball_cells g c r) (fun q => rowoff (gam a x) (liftZ a x (nth ax q 0%Z)))
+                 + (gam a x + inject_Z (T * ncell a)) * inject_Z (Z.of_nat (length (ball_cells g c r)))).
+    { intros T HT. rewrite H. rewrite <- lsum_const, <- lsum_plus. apply lsum_ext. intros q Hq.
+      apply pp_mask in Hq. rewrite (HT q Hq). unfold kcell. rewrite Ha, Hx.
+      rewrite (shapeN_nth_error g ax a Ha). unfold rowoff, liftZ, coordQ.
+      rewrite !inject_Z_plus, !inject_Z_mult, inject_Z_plus. ring. }
+    destruct (aper a) eqn:Hper.
+    - destruct (merge_offsets (shapeN g) (pos0 img) (vol0 g img) kappa (edges g img) kappa_lift_ok) as [t Ht].
+      change (merge_all (shapeN g) (init_state (pos0 img) (vol0 g img)) (edges g img)) with st in Ht.
+      exists (t v ax). split; [discriminate|]. apply Hgen. intros q Hq.
+      rewrite (Ht (clab img q) ax), (kappa_cell q ax Hq), (pp_one q p Hq Hp). reflexivity.
+    - exists 0%Z. split; [reflexivity|]. apply Hgen. intros q Hq.
+      assert (Hk : kcell q ax = 0%Z) by (unfold kcell, ksh; rewrite Ha, Hx, Hper; reflexivity).
+      rewrite Hk. unfold final_state. apply off_no_edge; [|reflexivity].
+      intros kl kh ax' Hin E. subst ax'. apply in_edges in Hin. destruct Hin as [Hin _].
+      apply periodic_axes_spec in Hin. destruct Hin as (a1 & Ha1 & Hp1). congruence.
+  Qed.
+
+  (* the reported coordinate along axis k *)
+  Theorem pp_axis_position p k a x : In p cells -> nth_error g k = Some a -> nth_error c k = Some x ->
+    let pk := norm1 a (alo a + mpos st (cl st (clab img p)) k * adisc a) in
+    Qabs (diff1 a x pk) <= adisc a / 2 /\ (aper a = true -> alo a <= pk /\ pk < ahi a).
+  Proof.
+    intros Hp Ha Hx. set (m := mpos st (cl st (clab img p)) k).
+    destruct (pp_position_lifted p k a x Hp Ha Hx) as (T & HT0 & HT). fold m in HT.
+    destruct (pfits_nth g c r Hpf k a Ha) as (x' & Hx' & Hf1). assert (x' = x) by congruence. subst x'.
+    pose proof (grid_ok_axis g k a Hok Ha) as Hoka. pose proof (adisc_pos a Hoka) as Hh.
+    pose proof (torus_ball_centroid g c r k a x Hok Ha Hx (pfits1_tfits1 a x r Hoka Hf1)) as Hcen.
+    set (n := inject_Z (Z.of_nat (length (ball_cells g c r)))) in *.
+    assert (Hn : 0 < n).
+    { unfold n. change 0 with (inject_Z 0). rewrite <- Zlt_Qlt.
+      destruct (ball_cells g c r); [congruence|cbn [length]; lia]. }
+    destruct (mean_bound m (gam a x + inject_Z (T * ncell a)) _ n Hn HT Hcen) as [D1 D2].
+    set (D := m - (gam a x + inject_Z (T * ncell a))) in *.
+    assert (Egam : gam a x * adisc a == x - alo a).
+    { unfold gam. field. intros E. rewrite E in Hh. discriminate Hh. }
+    assert (Eh2 : adisc a / 2 == (1 # 2) * adisc a) by field.
+    assert (Em : alo a + m * adisc a - x == D * adisc a + inject_Z T * asize a).
+    { unfold D. rewrite inject_Z_mult, <- (ncell_adisc a (proj1 Hoka)).
+      assert (E : alo a + m * adisc a - x == m * adisc a - gam a x * adisc a) by (rewrite Egam; ring).
+      rewrite E. ring. }
+    cbv zeta. unfold norm1, diff1. destruct (aper a) eqn:Hper.
+    - unfold pfits1 in Hf1. rewrite Hper in Hf1. pose proof ball_r_nonneg as Hr.
+      assert (HL : 0 < asize a) by lra.
+      split.
+      + unfold Qmod. set (fl := Qfloor ((alo a + m * adisc a - alo a) / asize a)).
+        rewrite (wrap1_comp (asize a) _ (D * adisc a + inject_Z (T - fl) * asize a)).
+        2:{ unfold Zminus. rewrite inject_Z_plus, inject_Z_opp.
+            assert (E : alo a + m * adisc a - alo a - inject_Z fl * asize a + alo a - x
+                        == (alo a + m * adisc a - x) - inject_Z fl * asize a) by ring.
+            rewrite E, Em. ring. }
+        rewrite (wrap1_add_period (asize a) (D * adisc a) (T - fl) HL).
+        assert (P1 : 0 <= adisc a * (D + (1 # 2))) by (apply Qmult_le_0_compat; lra).
+        assert (P2 : 0 <= adisc a * ((1 # 2) - D)) by (apply Qmult_le_0_compat; lra).
+        rewrite (wrap1_small (asize a) (D * adisc a) HL) by lra.
+        rewrite Eh2. apply Qabs_Qle_condition. split; lra.
+      + intros _. destruct (Qmod_range (alo a + m * adisc a - alo a) (asize a) HL) as [Q1 Q2].
+        unfold asize in Q2 at 2. split; lra.
+    - rewrite (HT0 eq_refl) in Em. change (inject_Z 0) with 0 in Em.
+      split; [|discriminate].
+      assert (E : alo a + m * adisc a - x == D * adisc a) by (rewrite Em; ring).
+      rewrite E, Eh2.
+      assert (P1 : 0 <= adisc a * (D + (1 # 2))) by (apply Qmult_le_0_compat; lra).
+      assert (P2 : 0 <= adisc a * ((1 # 2) - D)) by (apply Qmult_le_0_compat; lra).
+      apply Qabs_Qle_condition. split; lra.
+  Qed.
+End PeriodicPos.
+
+(* the located emulsion before overlap removal on a grid with periodic axes: one droplet, exact volume,
+   centre within half a grid spacing of c under the grid's periodic metric (diff1 = wrapped difference
+   along periodic axes, plain difference otherwise) and inside the box along periodic axes *)
+Theorem c01_periodic_single g c r lab :
+  let img := mk_limage (gshape g) lab in
+  grid_ok g -> pfits g c r -> ball_cells g c r <> [] ->
+  wf_img g img -> LabelSpecImg img -> mask_is_ball g c r img ->
+  exists pos vol,
+    candidates g lab = [(pos, vol)] /\
+    vol == cell_volume g * inject_Z (Z.of_nat (length (ball_cells g c r))) /\
+    length pos = length g /\
+    forall k a x, nth_error g k = Some a -> nth_error c k = Some x ->
+      exists pk, nth_error pos k = Some pk /\
+        Qabs (diff1 a x pk) <= adisc a / 2 /\ (aper a = true -> alo a <= pk /\ pk < ahi a).
+Proof.
+  intros img Hok Hpf Hne Hwf Hspec Hmask.
+  pose proof (pfits_tfits g c r Hok Hpf) as Htf.
+  destruct (ball_cells g c r) as [|p0 ps] eqn:E; [congruence|].
+  assert (Hp0 : In p0 (mask_cells img)).
+  { apply (per_mask_cells g c r img Hwf Hmask). rewrite E. left. reflexivity. }
+  rewrite <- E in *. set (st := final_state g img). set (v := cl st (clab img p0)).
+  exists (normalize g (cell_to_grid g (map (mpos st v) (seq 0 (length g))))), (mvol st v).
+  split; [|split; [|split]].
+  - unfold candidates. fold img.
+    rewrite (per_reps g c r img Hok Htf Hwf Hspec Hmask p0 Hp0). reflexivity.
+  - exact (per_volume g c r img Hok Htf Hwf Hspec Hmask p0 Hp0).
+  - apply normalize_cell_to_grid_length.
+  - intros k a x Ha Hx. exists (norm1 a (alo a + mpos st v k * adisc a)). split.
+    + exact (normalize_cell_to_grid_nth_gen g (mpos st v) 0 k a Ha).
+    + exact (pp_axis_position g c r img Hok Hpf Hne Hwf Hspec Hmask p0 k a x Hp0 Ha Hx).
 Qed.
 
 (* ------------------------------------------------------------------------------------------ *)
@@ -818,12 +1088,13 @@ Definition ex3_lab : list nat := [1; 0; 0; 0; 0; 2]%nat.
 Example c01_periodic_nonvacuous :
   let g := ex3_grid in let c := [1 # 5] in let r := 6 # 5 in
   let img := mk_limage (gshape g) ex3_lab in
-  grid_ok g /\ tfits g c r /\ ball_cells g c r = [[0]; [5]]%Z /\
+  grid_ok g /\ tfits g c r /\ pfits g c r /\ ball_cells g c r = [[0]; [5]]%Z /\
   wf_img g img /\ LabelSpecImg img /\ mask_is_ball g c r img /\ num_labels img = 2%nat.
 Proof.
   intros g c r img.
   split; [apply grid_okb_true; vm_compute; reflexivity|].
   split; [constructor; [|constructor]; unfold tfits1; cbn [aper]; apply Qle_bool_iff; vm_compute; reflexivity|].
+  split; [constructor; [|constructor]; unfold pfits1; cbn [aper]; apply Qle_bool_iff; vm_compute; reflexivity|].
   split; [vm_compute; reflexivity|].
   split; [apply wf_imgb_true; vm_compute; reflexivity|].
   split; [|split; [intros idx Hr; mask_enum Hr|vm_compute; reflexivity]].
@@ -847,6 +1118,7 @@ Print Assumptions c01_multi.
 Print Assumptions c01_multi_euclid.
 Print Assumptions c01_multi_no_removal.
 Print Assumptions c01_periodic_single_partial.
+Print Assumptions c01_periodic_single.
 Print Assumptions c01_single_nonvacuous.
 Print Assumptions c01_multi_nonvacuous.
 Print Assumptions c01_periodic_nonvacuous.
